@@ -46,7 +46,7 @@ type SkipCompressedFilter struct{}
 // encodings via https://developer.mozilla.org/en-US/docs/Web/HTTP/Headers/Content-Encoding
 func (n SkipCompressedFilter) ShouldCompress(w http.ResponseWriter) bool {
 	switch w.Header().Get("Content-Encoding") {
-	case "gzip", "compress", "deflate", "br":
+	case "gzip", "compress", "deflate", "br", "zstd":
 		return false
 	default:
 		return true
